@@ -17,19 +17,19 @@ open BM
 /-- Only matches are selected. -/
 theorem selectNonOverlap_sub (m lim : Nat) (l : List Nat) :
     ∀ x ∈ selectNonOverlap m lim l, x ∈ l ∧ lim ≤ x := by
-  sorry
+  exact Split.sel_sub m l lim
 
 /-- Selected matches do not overlap: each starts at or after the end of the one before. -/
 theorem selectNonOverlap_nonoverlapping (m lim : Nat) (l : List Nat) :
     (selectNonOverlap m lim l).Pairwise (fun x y => x + m ≤ y) := by
-  sorry
+  exact Split.sel_nonoverlapping m l lim
 
 /-- "successive … from the left": a match that was not selected overlaps a selected one that starts before it
     (so the selection is the left-most one, not just any non-overlapping subset). -/
 theorem selectNonOverlap_greedy (m lim : Nat) (l : List Nat) (hs : l.Pairwise (· < ·)) :
     ∀ x ∈ l, lim ≤ x → x ∉ selectNonOverlap m lim l →
       ∃ y ∈ selectNonOverlap m lim l, y < x ∧ x < y + m := by
-  sorry
+  exact Split.sel_greedy m l hs lim
 
 /-! ### split -/
 
@@ -41,16 +41,17 @@ theorem split_eq_selectNonOverlap (data pat : Bits) (start stop : Option Int) (c
     split data pat start stop count ba optBA =
       specGuard true data.length pat start stop fun s e =>
         specSplit data pat s e (specAligned ba optBA) (countNat count) := by
-  sorry
+  exact Split.split_main data pat start stop count ba optBA hc
 
 theorem empty_pattern_error_split (data : Bits) (start stop : Option Int) (count : Option Int) (ba : Option Bool) (o : Bool) :
     split data [] start stop count ba o = .error .value := by
-  sorry
+  simp [split]
 
 /-- Joining all pieces gives back the window: nothing is lost or duplicated by `split`. -/
 theorem specSplit_flatten (data pat : Bits) (s e : Nat) (al : Bool) (hse : s ≤ e) (he : e ≤ data.length) :
     (specSplit data pat s e al none).flatten = slice data s e := by
-  sorry
+  have _ := he
+  exact Split.specSplit_flatten_main data pat s e al hse
 
 /-! ### replace -/
 
@@ -59,12 +60,12 @@ theorem specSplit_flatten (data pat : Bits) (s e : Nat) (al : Bool) (hse : s ≤
 theorem replace_sel_eq (m count : Nat) (l : List Nat) :
     replaceSelLoop m count [] 0 l =
       if count = 0 then selectNonOverlap m 0 l else (selectNonOverlap m 0 l).take count := by
-  sorry
+  exact Split.replaceSelLoop_init m count l
 
 /-- The assembly of `_replace` puts `new` exactly at the selected positions. -/
 theorem replace_assemble_eq (data new : Bits) (m : Nat) (p : Nat) (ps : List Nat) :
     slice data 0 p ++ replaceAssemble data new m (p :: ps) = spliceFrom data new m 0 (p :: ps) := by
-  sorry
+  exact Split.replaceAssemble_gen data new m ps 0 p
 
 /-- `replace` on the domain where the code validates its arguments.  Full statement (no `hreg`) fails on the pinned
     tree: see `replace_count0_witness`. -/
@@ -75,7 +76,7 @@ theorem replace_eq_spec_partial (data old new : Bits) (start stop : Option Int) 
     replace data old new start stop count ba optBA =
       specGuard true data.length old start stop fun s e =>
         specReplace data old new s e (specAligned ba optBA) (countNat count) := by
-  sorry
+  exact Split.replace_main data old new start stop count ba optBA hreg hc
 
 /-- Known finding `replace-count0`: `BitArray('0b101').replace('', '0b1', count=0)` returns 0, the property
     demands ValueError for an empty pattern (and likewise for an invalid range). -/
@@ -93,7 +94,7 @@ theorem replace_count0_witness :
 theorem empty_pattern_error_replace (data new : Bits) (start stop : Option Int) (count : Option Int)
     (ba : Option Bool) (o : Bool) (h0 : count ≠ some 0) :
     replace data [] new start stop count ba o = .error .value := by
-  sorry
+  simp [replace, h0]
 
 /-! ### cut -/
 
@@ -102,19 +103,21 @@ theorem cut_chunks (data : Bits) (bits : Int) (start stop : Option Int) (count :
     (hb : 0 < bits) (hc : ∀ c, count = some c → 0 ≤ c) :
     cut data bits start stop count =
       specGuard false data.length [] start stop fun s e => specCut data bits.toNat s e (countNat count) := by
-  sorry
+  exact Split.cut_main data bits start stop count hb hc
 
 /-- The pieces of `cut` tile the window … -/
 theorem specCut_flatten (data : Bits) (bits s e : Nat) (hb : 0 < bits) (hse : s ≤ e) (he : e ≤ data.length) :
     (specCut data bits s e none).flatten = slice data s e := by
-  sorry
+  have _ := he
+  exact Split.specCut_flatten_main data bits s e hb hse
 
 /-- … each has `bits` bits except possibly the last, which has between 1 and `bits`. -/
 theorem specCut_lengths (data : Bits) (bits s e : Nat) (hb : 0 < bits) (hse : s ≤ e) (he : e ≤ data.length)
     (i : Nat) (hi : i < (specCut data bits s e none).length) :
     (i + 1 < (specCut data bits s e none).length → ((specCut data bits s e none)[i]).length = bits) ∧
     0 < ((specCut data bits s e none)[i]).length ∧ ((specCut data bits s e none)[i]).length ≤ bits := by
-  sorry
+  have _ := hse
+  exact Split.specCut_lengths_main data bits s e hb he i hi
 
 /-! ### non-vacuity -/
 example : split [false,true,true,false,true,true,false] [true] none none none none false
